@@ -18,8 +18,9 @@ import seqdrv
 import tracecorr
 import val
 
-IMPORTS = ['DCPrelude', 'Val', 'DiskBase', 'SqlBase', 'Gen_Disk', 'Disk', 'Gen_Sql', 'Cache', 'CacheRun', 'Conc', 'Txn', 'ConcRun']
-OPS = ('set', 'add', 'incr', 'decr', 'get', 'pop', 'delete', 'touch', 'contains', 'setitem', 'delitem')
+IMPORTS = ['DCPrelude', 'Val', 'DiskBase', 'SqlBase', 'Gen_Disk', 'Disk', 'Gen_Sql', 'Cache', 'CacheRun', 'Conc', 'Txn', 'TxnQueue', 'ConcRun']
+OPS = ('set', 'add', 'incr', 'decr', 'get', 'pop', 'delete', 'touch', 'contains', 'setitem', 'delitem', 'push', 'pull', 'peek')
+QUEUE_OPS = ('push', 'pull', 'peek')
 MISS = '<miss>'
 EXN = {'KeyError': 'EKeyError', 'TypeError': 'ETypeError', 'OverflowError': 'EOverflow'}
 
@@ -38,7 +39,32 @@ def supported(programs, setup):
             return False
         if c.get('tag') is not None or c.get('meta'):
             return False
+        if c['op'] in QUEUE_OPS:
+            if not (c.get('prefix') is None or isinstance(c.get('prefix'), str)):
+                return False
+            if c.get('side', 'back') not in ('back', 'front'):
+                return False
+            if c.get('expire') is not None:
+                return False      # an expired head makes pull / peek open a second transaction: outside the instance (model/TxnQueue.v)
     return True
+
+
+def stored_inline(v, settings):
+    """Disk.store keeps ints (int64) and short strings in the row; everything else goes to a file."""
+    if isinstance(v, int) and not isinstance(v, bool):
+        return -2 ** 63 <= v < 2 ** 63
+    if isinstance(v, str):
+        return len(v) < dict(settings or {}).get('disk_min_file_size', 2 ** 15)
+    return False
+
+
+def peek_inline_only(programs, setup, settings):
+    """The machine instance covers peek only when the head it finds is stored inline (a file-backed head is read after
+    COMMIT without being removed: model/TxnQueue.v).  True iff every push to a prefix that some call peeks at stores
+    its value inline."""
+    calls = list(setup or []) + [c for p in programs for c in p]
+    peeked = set(c.get('prefix') for c in calls if c['op'] == 'peek')
+    return all(stored_inline(c['value'], settings) for c in calls if c['op'] == 'push' and c.get('prefix') in peeked)
 
 
 def ticks(x):
@@ -68,6 +94,11 @@ def op_term(c):
         return '(OPop %s)' % K
     if op == 'delete':
         return '(ODelete %s false)' % K
+    if op in QUEUE_OPS:
+        P = 'None' if c.get('prefix') is None else '(Some %s)' % fw.cstr(c['prefix'])
+        if op == 'push':
+            return '(OPush %s false %s %s %s SNull)' % (val.py_term(c['value']), P, 'Back' if c.get('side', 'back') == 'back' else 'Front', E)
+        return '(%s %s %s)' % ('OPull' if op == 'pull' else 'OPeek', P, 'Front' if c.get('side', 'front') == 'front' else 'Back')
     raise ValueError(op)
 
 
@@ -87,6 +118,13 @@ def seen_term(rec):
         return 'XRes (RBool true)'
     if op in ('set', 'add', 'touch', 'delete', 'contains'):
         return 'XRes (RBool %s)' % fw.cbool(bool(r))
+    if op == 'push':
+        return 'XRes (RKey %s)' % val.sql_term(r)               # the key of the inserted row (int, or 'prefix-<15 digits>')
+    if op in ('pull', 'peek'):
+        if r == MISS or r == '<MISS>':
+            return 'XRes RDefault'
+        k, v = r
+        return 'XRes (RKV %s true %s None SNull)' % (val.sql_term(k), seqdrv.res_term_value(v))
     if r == MISS or r == '<MISS>' or (isinstance(r, str) and r.startswith('<') and 'miss' in r.lower()):
         return 'XRes RDefault'
     return 'XRes (RVal %s None SNull)' % seqdrv.res_term_value(r)
@@ -96,6 +134,8 @@ def build(r, programs, setup, settings, now=1000.0):
     """r: result of concdrv.run_program(..., sleep_advances=False).  Returns (term, info) or (None, reason)."""
     if not supported(programs, setup):
         return None, 'unsupported-op'
+    if not peek_inline_only(programs, setup, settings):
+        return None, 'peek-file-backed'
     if r.get('overflow') or any(e is not None for e in r.get('errors', [])):
         return None, 'run-incomplete'
     n = len(programs)
@@ -150,6 +190,8 @@ def build_crash(k, program, setup, settings, obs, now=1000.0, setup_now=900.0):
         return None, 'unsupported-op'
     if any(c.get('expire') is not None and c['op'] not in ('set', 'add', 'touch') for c in program):
         return None, 'unsupported-op'
+    if not peek_inline_only([program], setup, settings):
+        return None, 'peek-file-backed'
     events = list(k['events'])          # the events that executed (the one the kill landed before is k['kill_event'])
     recs = sorted(k['records'], key=lambda r: r['index'])
     merged, seen = [], []
